@@ -413,3 +413,173 @@ Theorem gen_merge_not_node (model : node) (models : list operand) (inplace : boo
   is_node model = false -> g_merge model models inplace name = Exc4 TypeError.
 Proof. intros H. rewrite gen_merge_unfold. now rewrite H. Qed.
 End GenMergeEq.
+
+(* ------------------------------------------------------------------ generated link = Graph.link_graph, as node / edge SETS
+   `link(node1, node2, name)` as translated on this run (py2coq_ops v3; `_check_all_nodes` pinned by its exact text).
+   Representation (precisely):
+   * node1 / node2 are [operand]s: an object ([ONode]) or a Sequence of objects ([OSeq]: `isinstance(x, Sequence)` and
+     `isinstance(x, Iterable)` hold exactly for [OSeq]; a str or another Iterable is outside the representation).  The hand model
+     takes the two lists of [value]s directly ([Graph.link_graph ls rs]); [Forall2 lrepr (opnd_flat o) ls] relates them
+     ([lrepr] = [repr] of the _link_1to1 section -- in particular not a FrozenModel -- and `isinstance(x, _Node)`).
+   * the generated function returns [MNew V E] = `Model(nodes=list(nodes), edges=list(edges), name=name)`, V / E lists made from
+     Python SETS ([ord_n 2] / [ord_e 2] of duplicate-free lists): compared with the [nodup] lists of [link_graph] as duplicate-free
+     enumerations of the same set ([same_set]); no claim about order.  The constructor call (Concat insertion, entries / exits,
+     sort) is NOT translated: [Graph.mk_model], tie H.  The `frozens` list is erased to a [list unit] (only its length is used).
+   * errors: an element that is not a _Node -> TypeError (first); else a FrozenModel operand / element -> TypeError; else a
+     dimension clash on some new edge -> ValueError (raised by the lifted _link_1to1: [Exc4 (Py ValueError)]).
+   The junction with the generated text is by unfolding [GenOps.link] (cbv): when ops.py changes the proofs stop compiling. *)
+Section GenLinkNEq.
+Variable ord_n : nat -> list node -> list node.
+Variable ord_e : nat -> list edge -> list edge.
+Hypothesis Hord_n : forall k s, Permutation (ord_n k s) s.
+Hypothesis Hord_e : forall k s, Permutation (ord_e k s) s.
+Variables is_model is_frozen_model is_initialized is_node : node -> bool.
+Variables attr_nodes attr_input_nodes attr_output_nodes : node -> list node.
+Variable attr_edges : node -> list edge.
+Variable dim : Type.
+Variables output_dim input_dim : node -> dim.
+Variable dim_eqb : dim -> dim -> bool.
+
+Definition g_linkN := GenOps.link ord_n ord_e is_model is_frozen_model is_initialized is_node attr_nodes attr_input_nodes
+  attr_output_nodes attr_edges dim output_dim input_dim dim_eqb.
+Let g1 := g_link is_model is_frozen_model is_initialized attr_nodes attr_input_nodes attr_output_nodes attr_edges dim
+  output_dim input_dim dim_eqb.
+Let rp := repr is_model is_frozen_model attr_nodes attr_input_nodes attr_output_nodes attr_edges.
+Let clash := dim_clash is_initialized dim output_dim input_dim dim_eqb.
+
+Definition lrepr (n : node) (a : value) : Prop := rp n a /\ is_node n = true.
+Definition no_clash (a b : value) : Prop := forall s r, In s (v_outs a) -> In r (v_ins b) -> clash (s, r) = false.
+
+Definition lstate := (list node * list edge)%type.
+(* the body of the inner loop, copied from the generated text *)
+Definition lbody (left_ : node) : lstate -> node -> py4 lstate := fun '(nodes, edges) right_ =>
+  py4_bind (py4_lift (g1 left_ right_)) (fun '(new_nodes, new_edges) =>
+  let nodes := set_union nodes (py_set new_nodes) in
+  let edges := set_union edges (py_set new_edges) in
+  Val4 (nodes, edges)).
+Definition lloops (l1 l2 : list node) : py4 lstate :=
+  py4_for l1 (fun '(nodes, edges) left_ =>
+    py4_bind (py4_for l2 (lbody left_) (nodes, edges)) (fun '(nodes, edges) => Val4 (nodes, edges))) ([], []).
+
+Lemma check_elems (l : list node) :
+  py4_for l (fun (_ : unit) n => if negb (is_node n) then Exc4 TypeError else Val4 tt) tt
+  = if forallb is_node l then Val4 tt else Exc4 TypeError.
+Proof. induction l as [|x l IH]; cbn; auto. destruct (is_node x); cbn; auto. Qed.
+
+Lemma check_all_spec o1 o2 :
+  GenOps.check_all_nodes is_node [o1; o2]
+  = if forallb is_node (opnd_flat o1 ++ opnd_flat o2) then Val4 tt else Exc4 TypeError.
+Proof. unfold GenOps.check_all_nodes. rewrite forallb_app.
+  destruct o1 as [n1|l1], o2 as [n2|l2]; cbn [py4_for opnd_flat forallb]; rewrite ?check_elems, ?andb_true_r;
+    cbv delta [Graph.node PyColl.node Graph.edge PyColl.edge] in *.
+  - destruct (is_node n1), (is_node n2); reflexivity.
+  - destruct (is_node n1); cbn; [|reflexivity]. destruct (forallb is_node l2); reflexivity.
+  - destruct (forallb is_node l1); cbn; [|reflexivity]. destruct (is_node n2); reflexivity.
+  - destruct (forallb is_node l1); cbn; [|reflexivity]. destruct (forallb is_node l2); reflexivity.
+Qed.
+
+Definition frozen_count (o : operand) : list unit := map (fun _ => tt) (filter is_frozen_model (opnd_flat o)).
+
+(* the generated link, in closed form: the two checks, then the double loop *)
+Lemma gen_linkN_unfold o1 o2 name : g_linkN o1 o2 name =
+  if forallb is_node (opnd_flat o1 ++ opnd_flat o2) then
+    if 0 <? length (frozen_count o1 ++ frozen_count o2) then Exc4 TypeError
+    else py4_bind (lloops (opnd_flat o1) (opnd_flat o2)) (fun '(nodes, edges) => Val4 (MNew (ord_n 2 nodes) (ord_e 2 edges)))
+  else Exc4 TypeError.
+Proof. unfold g_linkN, GenOps.link. rewrite check_all_spec.
+  destruct (forallb is_node _); [|reflexivity]. cbn [py4_bind]. unfold frozen_count.
+  destruct o1 as [n1|l1], o2 as [n2|l2]; cbn [opnd_flat filter map app]; cbv zeta.
+  - destruct (is_frozen_model n1), (is_frozen_model n2); reflexivity.
+  - destruct (is_frozen_model n1); reflexivity.
+  - destruct (is_frozen_model n2); cbn [map app]; rewrite ?app_nil_r; reflexivity.
+  - reflexivity.
+Qed.
+
+Lemma frozen_none o : Forall (fun n => is_frozen_model n = false) (opnd_flat o) -> frozen_count o = [].
+Proof. unfold frozen_count. induction 1 as [|x l Hx _ IH]; cbn; auto. rewrite Hx. exact IH. Qed.
+
+Lemma lbody_spec N A l r a b : rp l a -> rp r b -> no_clash a b ->
+  lbody l (N, A) r = Val4 (set_union N (py_set (fst (link_1to1 a b))), set_union A (py_set (snd (link_1to1 a b)))).
+Proof. intros Ha Hb Hc. unfold lbody, g1. rewrite (gen_link_1to1_ok _ _ _ _ _ _ _ _ _ _ _ l r a b Ha Hb Hc).
+  cbn [py4_lift py4_bind]. destruct (link_1to1 a b); reflexivity. Qed.
+
+Lemma linner_spec l a : rp l a -> forall rs bs, Forall2 lrepr rs bs -> (forall b, In b bs -> no_clash a b) ->
+  forall N A, NoDup N -> NoDup A ->
+  exists N' A', py4_for rs (lbody l) (N, A) = Val4 (N', A') /\ NoDup N' /\ NoDup A' /\
+    (forall x, In x N' <-> In x N \/ In x (flat_map (fun r => fst (link_1to1 a r)) bs)) /\
+    (forall e, In e A' <-> In e A \/ In e (flat_map (fun r => snd (link_1to1 a r)) bs)).
+Proof. intros Ha. induction 1 as [|r b rs bs Hr Hf IH]; intros Hc N A HN HA.
+  - exists N, A. cbn. repeat split; auto; tauto.
+  - cbn [py4_for]. rewrite (lbody_spec N A l r a b Ha (proj1 Hr) (Hc b (or_introl eq_refl))).
+    match goal with |- context [py4_for rs (lbody l) (?N1, ?A1)] =>
+      destruct (IH (fun b' Hb' => Hc b' (or_intror Hb')) N1 A1) as [N' [A' [Hl [HN' [HA' [HNi HAi]]]]]] end.
+    { apply set_union_NoDup; auto. apply py_set_NoDup. }
+    { apply set_union_NoDup; auto. apply py_set_NoDup. }
+    exists N', A'. split; [exact Hl|]. split; [exact HN'|]. split; [exact HA'|]. split.
+    + intros x. rewrite HNi, set_union_In, py_set_In. cbn [flat_map]. rewrite in_app_iff. tauto.
+    + intros e. rewrite HAi, set_union_In, py_set_In. cbn [flat_map]. rewrite in_app_iff. tauto.
+Qed.
+
+Lemma louter_spec rs bs : Forall2 lrepr rs bs -> forall ls as_, Forall2 lrepr ls as_ ->
+  (forall a b, In a as_ -> In b bs -> no_clash a b) ->
+  forall N A, NoDup N -> NoDup A ->
+  exists N' A', py4_for ls (fun '(nodes, edges) left_ =>
+      py4_bind (py4_for rs (lbody left_) (nodes, edges)) (fun '(nodes, edges) => Val4 (nodes, edges))) (N, A) = Val4 (N', A') /\
+    NoDup N' /\ NoDup A' /\
+    (forall x, In x N' <-> In x N \/ In x (flat_map (fun l => flat_map (fun r => fst (link_1to1 l r)) bs) as_)) /\
+    (forall e, In e A' <-> In e A \/ In e (flat_map (fun l => flat_map (fun r => snd (link_1to1 l r)) bs) as_)).
+Proof. intros Hrs. induction 1 as [|l a ls as_ Hl Hf IH]; intros Hc N A HN HA.
+  - exists N, A. cbn. repeat split; auto; tauto.
+  - cbn [py4_for].
+    destruct (linner_spec l a (proj1 Hl) rs bs Hrs (fun b Hb => Hc a b (or_introl eq_refl) Hb) N A HN HA)
+      as [N1 [A1 [H1 [HN1 [HA1 [HN1i HA1i]]]]]].
+    cbv delta [Graph.node PyColl.node Graph.edge PyColl.edge] in *. rewrite H1. cbn [py4_bind].
+    destruct (IH (fun a' b' Ha' Hb' => Hc a' b' (or_intror Ha') Hb') N1 A1 HN1 HA1) as [N' [A' [H2 [HN' [HA' [HNi HAi]]]]]].
+    exists N', A'. split; [exact H2|]. split; [exact HN'|]. split; [exact HA'|]. split.
+    + intros x. rewrite HNi, HN1i. cbn [flat_map]. rewrite in_app_iff. tauto.
+    + intros e. rewrite HAi, HA1i. cbn [flat_map]. rewrite in_app_iff. tauto.
+Qed.
+
+Lemma lrepr_checks l vs : Forall2 lrepr l vs -> forallb is_node l = true /\ Forall (fun n => is_frozen_model n = false) l.
+Proof. induction 1 as [|n a l vs [Hr Hn] _ [IH1 IH2]]; cbn; [split; auto|]. rewrite Hn, IH1. split; auto. constructor; auto.
+  destruct a; cbn in Hr; tauto. Qed.
+
+Theorem gen_link_is_model (o1 o2 : operand) (name : unit) (ls rs : list value) :
+  Forall2 lrepr (opnd_flat o1) ls -> Forall2 lrepr (opnd_flat o2) rs ->
+  (forall a b, In a ls -> In b rs -> no_clash a b) ->
+  exists V E, g_linkN o1 o2 name = Val4 (MNew V E) /\
+    same_set V (fst (link_graph ls rs)) /\ same_set E (snd (link_graph ls rs)).
+Proof. intros H1 H2 Hc. rewrite gen_linkN_unfold.
+  destruct (lrepr_checks _ _ H1) as [Hn1 Hf1], (lrepr_checks _ _ H2) as [Hn2 Hf2].
+  cbv delta [Graph.node PyColl.node Graph.edge PyColl.edge] in *.
+  rewrite forallb_app, Hn1, Hn2, (frozen_none o1 Hf1), (frozen_none o2 Hf2). cbn [andb app length Nat.ltb Nat.leb].
+  unfold lloops.
+  destruct (louter_spec _ _ H2 _ _ H1 Hc [] [] (NoDup_nil _) (NoDup_nil _)) as [N [A [Hl [HN [HA [HNi HAi]]]]]].
+  cbv delta [Graph.node PyColl.node Graph.edge PyColl.edge] in *. rewrite Hl. cbn [py4_bind].
+  eexists; eexists. split; [reflexivity|]. cbn [link_graph fst snd]. split; (split; [|split]).
+  - exact (Permutation_NoDup (Permutation_sym (Hord_n 2 N)) HN).
+  - apply NoDup_nodup.
+  - intros x. rewrite nodup_In. split.
+    + intros Hi. apply (Permutation_in _ (Hord_n 2 N)) in Hi. apply HNi in Hi as [[]|Hi]. exact Hi.
+    + intros Hi. apply (Permutation_in _ (Permutation_sym (Hord_n 2 N))). apply HNi. now right.
+  - exact (Permutation_NoDup (Permutation_sym (Hord_e 2 A)) HA).
+  - apply NoDup_nodup.
+  - intros e. rewrite nodup_In. split.
+    + intros Hi. apply (Permutation_in _ (Hord_e 2 A)) in Hi. apply HAi in Hi as [[]|Hi]. exact Hi.
+    + intros Hi. apply (Permutation_in _ (Permutation_sym (Hord_e 2 A))). apply HAi. now right.
+Qed.
+
+(* error cases: an element that is not a _Node; a FrozenModel among _Nodes *)
+Theorem gen_link_not_node (o1 o2 : operand) (name : unit) :
+  forallb is_node (opnd_flat o1 ++ opnd_flat o2) = false -> g_linkN o1 o2 name = Exc4 TypeError.
+Proof. intros H. rewrite gen_linkN_unfold, H. reflexivity. Qed.
+
+Theorem gen_link_frozen (o1 o2 : operand) (name : unit) :
+  existsb is_frozen_model (opnd_flat o1 ++ opnd_flat o2) = true -> g_linkN o1 o2 name = Exc4 TypeError.
+Proof. intros H. rewrite gen_linkN_unfold. destruct (forallb is_node _); [|reflexivity].
+  replace (0 <? length (frozen_count o1 ++ frozen_count o2)) with true; [reflexivity|].
+  unfold frozen_count. rewrite <- map_app, <- filter_app, map_length. symmetry. apply Nat.ltb_lt.
+  apply existsb_exists in H as [x [Hi Hx]].
+  assert (Hin : In x (filter is_frozen_model (opnd_flat o1 ++ opnd_flat o2))) by (apply filter_In; auto).
+  destruct (filter _ _); [destruct Hin|cbn; lia]. Qed.
+End GenLinkNEq.
